@@ -97,6 +97,32 @@ def worker(case, led):
                           f"norm {np.linalg.norm(v)}", key + ("norm",), fields, rep)
                 led.check(np.abs(S.dense(a) - v0).max() <= 1e-12, f"frame:Mps.evolve[{method}]:input_imaginary_time", f"Mps._evolve_{method}", "input changed",
                           key + ("frame",), fields, rep)
+    elif kind == "cmf_order":
+        # the constant-mean-field scheme with the mid-point environment (the default) is second order in imaginary time as well: halving tau divides the one-step
+        # error by ~8 (first order: ~4).  The mid-point environment has to be the state evolved by HALF THE IMAGINARY step.
+        _, name, n, solver, seed, tier = case
+        rng = np.random.default_rng([seed, n, 1003, sum(map(ord, name))])
+        prep = prepare(name, n, rng, complex_=False)
+        if prep is None:
+            return
+        model, terms, H, Hd, q, a = prep
+        hn = np.linalg.norm(Hd, 2)
+        v0 = S.dense(a)
+        errs = []
+        for x in (0.2, 0.1):
+            tau = x / hn
+            ref = scipy.linalg.expm(-tau * Hd) @ v0
+            ref = ref / np.linalg.norm(ref)
+            try:
+                r, m = evolve(a, H, -1j * tau, "tdvp_mu_cmf", ivp_solver=solver, guess_dt=-1j * tau)
+            except Exception as e:
+                led.check(False, "post:Mps.evolve[tdvp_mu_cmf]:imaginary_time_total", "Mps._evolve_tdvp_mu_cmf", f"raised {type(e).__name__}: {e}", (name, n, solver, x), {}, {})
+                return
+            errs.append(float(np.linalg.norm(S.dense(r) - ref)))
+        ratio = errs[0] / max(errs[1], 1e-300)
+        led.check(ratio >= 5.5 or errs[0] <= 1e-9, "post:Mps.evolve[tdvp_mu_cmf]:imaginary_time_midpoint_scheme_is_second_order", "Mps._evolve_tdvp_mu_cmf",
+                  f"one-step errors {errs[0]:.3e} (|H|tau=0.2) and {errs[1]:.3e} (0.1): ratio {ratio:.2f}, a second-order scheme gives ~8, a first-order one ~4",
+                  (name, n, solver, "cmf-order"), {"ivp_solver": solver}, {"model": name, "nsites": n, "ivp_solver": solver, "seed": seed, "errors": errs})
     elif kind == "exactprop":
         _, nmol, scheme, seed, tier = case
         from renormalizer.mps import Mpo, Mps, MpDm
@@ -295,6 +321,9 @@ def check(run):
         for name, n in (("spinqn", 4), ("holstein", 4), ("spinqn-flux", 4)) if run.tier == "quick" else (("spinqn", 4), ("holstein", 4), ("spin", 3), ("spinqn", 5), ("spinqn-flux", 4), ("holstein-flux", 4)):
             for method in METHODS:
                 cases.append(("imag", name, n, method, s, run.tier))
+        for name, n in (("spinqn", 4), ("holstein", 4)):
+            for solver in ("RK45", "krylov"):
+                cases.append(("cmf_order", name, n, solver, s, run.tier))
         for nmol in (1, 2, (2, "degenerate"), (1, "twomodes")) + (((2, "twomodes"),) if run.tier != "quick" else ()):
             for scheme in (2, 4):
                 cases.append(("exactprop", nmol, scheme, s, run.tier))
